@@ -40,12 +40,12 @@ class CompMixin(Interp):
             ok, s = pyconst(v)
             if ok:
                 return Source(items=[VStr(c) for c in s])
-            i = self.fresh(st, "ci", z3.IntSort())
+            i = self.fresh_const(st, "ci", z3.IntSort())
             return Source(binders=[i], guard=z3.And(0 <= i, i < z3.Length(v.t)), elem=VStr(z3.SubString(v.t, i, 1)))
         if isinstance(v, VFam):
             if v.kind == "set" and not self.elem_is_binder(v):
                 ety = self.type_of(v.elem)
-                y = self.fresh(st, "y", ety.sort())
+                y = self.fresh_const(st, "y", ety.sort())
                 yl = self.lift(y, ety)
                 g = self.exists(v.binders, t_and(v.guard, self.eq(st, v.elem, yl)))
                 return Source(binders=[y], guard=g, elem=yl, ordered=False)
@@ -56,9 +56,9 @@ class CompMixin(Interp):
             if ok1 and ok2 and b - a <= 64:
                 return Source(items=[VInt(i) for i in range(a, b, v.step)])
             if v.step != 1:
-                i = self.fresh(st, "i", z3.IntSort())
+                i = self.fresh_const(st, "i", z3.IntSort())
                 return Source(binders=[i], guard=z3.And(v.lo <= i, i < v.hi, (i - v.lo) % v.step == 0), elem=VInt(i))
-            i = self.fresh(st, "i", z3.IntSort())
+            i = self.fresh_const(st, "i", z3.IntSort())
             return Source(binders=[i], guard=z3.And(v.lo <= i, i < v.hi), elem=VInt(i))
         if isinstance(v, VFunc) and v.kind == "dictview":
             return self.source(st, v.recv, v.mode)
@@ -99,16 +99,16 @@ class CompMixin(Interp):
                     return Source(items=[self.load(st, VRef(v.root, v.path + (("k", k),))) for k, _ in h.items])
                 return Source(items=[k for k, _ in h.items])
             if isinstance(h, HBag):
-                ren = [(b, self.fresh(st, "b", b.sort())) for b in h.binders]
+                ren = [(b, self.fresh_const(st, "b", b.sort())) for b in h.binders]
                 return Source(binders=[r for _, r in ren], guard=z3.substitute(h.guard, *ren) if ren else h.guard,
                               elem=subst(h.elem, ren), ordered=False)
             if isinstance(h, HSeq):
-                i = self.fresh(st, "i", z3.IntSort())
+                i = self.fresh_const(st, "i", z3.IntSort())
                 s = Source(binders=[i], guard=z3.And(0 <= i, i < z3.Length(h.t)), elem=self.lift(h.t[i], h.elem_ty), seqsrc=(h.t, i))
                 s.indexed = True
                 return s
             if isinstance(h, HListC):
-                i = self.fresh(st, "i", z3.IntSort())
+                i = self.fresh_const(st, "i", z3.IntSort())
                 s = Source(binders=[i], guard=z3.And(0 <= i, i < h.length),
                            elem=self.load(st, VRef(v.root, v.path + (("k", VInt(i)),))))
                 s.indexed = True
@@ -136,11 +136,11 @@ class CompMixin(Interp):
         if isinstance(kty, (TTuple, TRec)):
             tys = kty.items if isinstance(kty, TTuple) else [t for _, t in kty.fields]
             if all(isinstance(t, (TInt, TReal, TBool, TStr, TAny)) for t in tys):
-                bs = [self.fresh(st, "k", t.sort()) for t in tys]
+                bs = [self.fresh_const(st, "k", t.sort()) for t in tys]
                 vals = [self.lift(b, t) for b, t in zip(bs, tys)]
                 kv = VTuple(vals) if isinstance(kty, TTuple) else VRec(kty.cls, [f for f, _ in kty.fields], vals)
                 return bs, self.lower(kv, kty), kv
-        b = self.fresh(st, "k", kty.sort())
+        b = self.fresh_const(st, "k", kty.sort())
         return [b], b, self.lift(b, kty)
 
     def elem_is_binder(self, fam):
@@ -283,9 +283,10 @@ class CompMixin(Interp):
         key, val = fam.elem
         return self.alloc(st, self.dict_from_family(st, fam.binders, fam.guard, key, val))
 
-    def invert_key(self, st, binders, key, kty):
-        """Try to express every binder as a function of the key value x. Returns (x, pairs, residual)
-        where pairs substitute binders and residual is the condition 'key(inv(x)) == x'."""
+    def invert_key(self, st, binders, key, kty, partial=False):
+        """Express binders as functions of the key value x. Returns (x, pairs, residual) where pairs
+        substitute the determined binders and residual is 'key(inv(x)) == x'. With partial=True a
+        fourth component lists the binders the key does not determine (else None is returned)."""
         kt = self.lower(key, kty)
         x = z3.Const(f"kx!{next(self.ctx.counter)}", kt.sort())
         found = {}
@@ -301,26 +302,43 @@ class CompMixin(Interp):
                 for i in range(term_s.num_args()):
                     walk(term_s.arg(i), srt.accessor(0, i)(acc))
         walk(kt, x)
-        if len(found) != len(binders):
+        und = [b for b in binders if b.get_id() not in found]
+        if und and not partial:
             return None
         pairs = list(found.values())
-        resid = z3.simplify(z3.substitute(kt, *pairs) == x)
+        resid = z3.simplify((z3.substitute(kt, *pairs) if pairs else kt) == x)
+        if partial:
+            return x, pairs, resid, und
         return x, pairs, resid
+
+    def choose(self, st, x, und, body):
+        """Skolem choice for binders the key does not determine: returns substitution pairs und -> choice(x)
+        and records  (exists und. body) => body[choice]  as an axiom."""
+        pairs = []
+        for i, u in enumerate(und):
+            f = z3.Function(f"choice!{next(self.ctx.counter)}", x.sort(), u.sort())
+            pairs.append((u, f(x)))
+        ex = self.exists(und, body)
+        st.axioms.append(z3.ForAll([x], z3.Implies(ex, z3.substitute(body, *pairs))))
+        return pairs, ex
 
     def dict_from_family(self, st, binders, guard, key, val):
         kty = self.type_of(key)
-        inv = self.invert_key(st, binders, key, kty)
-        if inv is None:
-            raise Unsupported("dict comprehension whose key does not determine the comprehension variables")
-        x, pairs, resid = inv
-        dom = z3.simplify(t_and(z3.substitute(guard, *pairs), resid))
+        x, pairs, resid, und = self.invert_key(st, binders, key, kty, partial=True)
+        body = t_and(z3.substitute(guard, *pairs) if pairs else guard, resid)
         v2 = subst(val, pairs)
+        if und:
+            cp, dom = self.choose(st, x, und, body)
+            v2 = subst(v2, cp)
+            self.ctx.notes.append("dict comprehension whose key does not determine all comprehension variables: "
+                                  "last-writer semantics abstracted by a choice function")
+        else:
+            dom = z3.simplify(body)
         if isinstance(v2, VRef):
             h = self.resolve(st, v2)
             st.aliases.append((v2.root, v2.path))
             v2 = h
-        vty = None
-        return HDict(kty, x, dom, v2, None, vty)
+        return HDict(kty, x, dom, v2, None, None)
 
     # ------------------------------------------------------------------ aggregates
 
@@ -359,6 +377,9 @@ class CompMixin(Interp):
 
     def agg_len(self, st, v):
         v = self.force(st, v)
+        if type(v).__name__ == "VDebug":
+            n = self.fresh(st, "dbglen", z3.IntSort())
+            return VInt(n)
         if isinstance(v, VDyn):
             return self.dyn_apply(st, v, lambda x: self.agg_len(st, x))
         if isinstance(v, VStr):
